@@ -1627,3 +1627,308 @@ Section Arrangement.
     - destruct (IH _ _ _ H) as [ND Hge]. split; [exact ND | intros c Hin; pose proof (Hge c Hin); lia].
   Qed.
 End Arrangement.
+
+(* ================================================================================================ *)
+(* 8. what process leaves in the rules: the triggered flag, for every activation method              *)
+(* ================================================================================================ *)
+Section Flags.
+  Context {T : Type} {N : Num T}.
+  Variable function_eval : engine T -> fnode T -> list (string * T) -> T -> result T.
+  Notation outputs := (list (output_var T)).
+  Notation candidate := (@candidate T).
+  Variables (E : engine T) (b : block T).
+  Notation cj := (b_conjunction b).
+  Notation dj := (b_disjunction b).
+  Notation im := (b_implication b).
+  Notation vis := (visits function_eval E cj dj im).
+  Notation fdeg := (firing_degree function_eval E b).
+
+  (* the record r' left at position ri (originally r), against the list `sel` of triggered candidates:
+     configuration unchanged; triggered <-> selected, enabled and degree > 0; a selected rule holds the degree passed
+     to its consequent *)
+  Definition flags_ok (sel : list candidate) (ri : nat) (r r' : rule T) : Prop :=
+    rule_deactivated r' = rule_deactivated r /\
+    (r_triggered r' = true <->
+     exists c, In c sel /\ cd_pos c = ri /\ cd_enabled c = true /\ gtb (cd_degree c) zero = true) /\
+    (forall c, In c sel -> cd_pos c = ri -> r_degree r' = cd_degree c).
+
+  Lemma flags_ok_untriggered sel ri (r r' : rule T) :
+    rule_deactivated r' = rule_deactivated r -> r_triggered r' = false -> (forall c, In c sel -> cd_pos c <> ri) ->
+    flags_ok sel ri r r'.
+  Proof.
+    intros Hs Ht Hno. split; [exact Hs|]. split.
+    - rewrite Ht. split; [discriminate|]. intros (c & Hin & Hp & _). exfalso. exact (Hno c Hin Hp).
+    - intros c Hin Hp. exfalso. exact (Hno c Hin Hp).
+  Qed.
+
+  Lemma flags_ok_cons_other (c : candidate) sel ri (r r' : rule T) :
+    cd_pos c <> ri -> flags_ok sel ri r r' -> flags_ok (c :: sel) ri r r'.
+  Proof.
+    intros Hne (Hs & Hiff & Hd). split; [exact Hs|]. split.
+    - rewrite Hiff. split.
+      + intros (c' & Hin & Hrest). exists c'. split; [right; exact Hin | exact Hrest].
+      + intros (c' & [<- | Hin] & Hp & Hrest); [exfalso; exact (Hne Hp)|]. exists c'. split; [exact Hin | split; [exact Hp | exact Hrest]].
+    - intros c' [<- | Hin] Hp; [exfalso; exact (Hne Hp) | exact (Hd c' Hin Hp)].
+  Qed.
+
+  Lemma flags_ok_head (c : candidate) sel ri (r : rule T) d :
+    cd_pos c = ri -> cd_degree c = d -> cd_enabled c = r_enabled r -> (forall c', In c' sel -> cd_pos c' <> ri) ->
+    flags_ok (c :: sel) ri r (mk_rule r d (r_enabled r && gtb d zero)).
+  Proof.
+    intros Hp Hd He Hno. split; [reflexivity|]. cbn [r_triggered r_degree mk_rule]. split.
+    - split.
+      + intros H. apply andb_true_iff in H. destruct H as [H1 H2]. exists c. split; [left; reflexivity|].
+        split; [exact Hp|]. rewrite He, Hd. split; assumption.
+      + intros (c' & [<- | Hin] & Hp' & He' & Hg'); [|exfalso; exact (Hno c' Hin Hp')].
+        rewrite <- He, <- Hd, He', Hg'. reflexivity.
+    - intros c' [<- | Hin] Hp'; [symmetry; exact Hd | exfalso; exact (Hno c' Hin Hp')].
+  Qed.
+
+  Lemma mk_rule_flag_cases (r : rule T) d : 
+    (if r_enabled r then mk_rule r d (gtb d zero) else mk_rule r d false) = mk_rule r d (r_enabled r && gtb d zero).
+  Proof. destruct (r_enabled r); reflexivity. Qed.
+
+  (* ---- interleaved methods *)
+  Lemma visits_flags (A : Type) (f : A -> nat -> T -> A * bool) (decide : A -> T -> A * bool) :
+    (forall a i d, f a i d = decide a d) ->
+    forall xs a rules outs a' rules' outs',
+    NoDup (map fst xs) -> agrees rules xs -> vis f xs a rules outs = Ok (a', rules', outs') ->
+    exists log, walk_log function_eval decide E b a outs xs = Ok (log, outs') /\
+      (forall j, ~ In j (map fst xs) -> nth_error rules' j = nth_error rules j) /\
+      (forall i r, In (i, r) xs -> exists r', nth_error rules' i = Some r' /\ flags_ok log i r r').
+  Proof.
+    intros Hf. induction xs as [|[i r] xs IH]; intros a rules outs a' rules' outs' ND AG H.
+    - cbn [visits] in H. injection H as <- <- <-. exists []. split; [reflexivity|]. split; [reflexivity | intros i r []].
+    - cbn [map fst] in ND. inversion ND as [|? ? NI ND']; subst.
+      pose proof (AG i r (or_introl eq_refl)) as Hn.
+      cbn [visits] in H. destruct (visit function_eval E cj dj im f a i r outs) as [[[a1 r1] o1]|] eqn:Hv; cbn [bind fst snd] in H; [|discriminate].
+      assert (AG1 : agrees (set_nth i r1 rules) xs) by (apply agrees_set_nth; [exact NI | exact (agrees_tail _ _ _ AG)]).
+      destruct (IH a1 (set_nth i r1 rules) o1 a' rules' outs' ND' AG1 H) as (log1 & Hw1 & Hoth1 & Hin1).
+      assert (Hno1 : forall c, In c log1 -> cd_pos c <> i).
+      { intros c Hc Hp. destruct (walk_log_in function_eval E b A decide xs a1 o1 log1 outs' c Hw1 Hc) as (r0 & a0 & Hx & _).
+        apply NI. rewrite <- Hp. exact (in_map fst _ _ Hx). }
+      assert (Hat : nth_error rules' i = Some r1).
+      { rewrite (Hoth1 i NI). apply nth_error_set_nth_eq. exact (nth_error_lt _ _ _ Hn). }
+      assert (Hothers : forall j, ~ In j (i :: map fst xs) -> nth_error rules' j = nth_error rules j).
+      { intros j Hj. rewrite Hoth1 by (intros Hc; apply Hj; right; exact Hc).
+        apply nth_error_set_nth_neq. intros ->. apply Hj. left. reflexivity. }
+      (* the tail's facts, against a log that may have one more candidate at position i *)
+      assert (Htail : forall log, (log = log1 \/ exists c, cd_pos c = i /\ log = c :: log1) ->
+                forall i' r', In (i', r') xs -> exists r'', nth_error rules' i' = Some r'' /\ flags_ok log i' r' r'').
+      { intros log Hlog i' r' Hin'. destruct (Hin1 i' r' Hin') as (r'' & Ha & Hb). exists r''. split; [exact Ha|].
+        destruct Hlog as [-> | (c & Hp & ->)]; [exact Hb|]. apply flags_ok_cons_other; [|exact Hb].
+        rewrite Hp. intros ->. apply NI. exact (in_map fst _ _ Hin'). }
+      unfold visit in Hv. cbn [walk_log]. destruct (rule_loaded r) eqn:Hld.
+      + rewrite raw_firing_degree in Hv. destruct (fdeg outs r) as [d|]; cbn [bind] in Hv |- *; [|discriminate].
+        rewrite Hf in Hv. destruct (snd (decide a d)) eqn:Hs.
+        * rewrite (trigger_loaded b r d false outs Hld) in Hv. unfold fire.
+          destruct (r_enabled r) eqn:Hen.
+          -- destruct (modify d im (r_consequent r) outs) as [o'|]; cbn [bind fst snd] in Hv |- *; [|discriminate].
+             injection Hv as <- <- <-. rewrite Hw1. cbn [bind fst snd].
+             eexists. split; [reflexivity|]. split; [exact Hothers|].
+             intros i' r' [Heq | Hin'].
+             ++ injection Heq as <- <-. eexists. split; [exact Hat|].
+                pose proof (flags_ok_head {| cd_pos := i; cd_degree := d; cd_enabled := true; cd_conclusions := r_consequent r |}
+                              log1 i r d eq_refl eq_refl (eq_sym Hen) Hno1) as HF.
+                rewrite Hen in HF. exact HF.
+             ++ apply Htail; [right; eexists; split; [|reflexivity]; reflexivity | exact Hin'].
+          -- cbn [bind fst snd] in Hv |- *. injection Hv as <- <- <-. rewrite Hw1. cbn [bind fst snd].
+             eexists. split; [reflexivity|]. split; [exact Hothers|].
+             intros i' r' [Heq | Hin'].
+             ++ injection Heq as <- <-. eexists. split; [exact Hat|].
+                pose proof (flags_ok_head {| cd_pos := i; cd_degree := d; cd_enabled := false; cd_conclusions := r_consequent r |}
+                              log1 i r d eq_refl eq_refl (eq_sym Hen) Hno1) as HF.
+                rewrite Hen in HF. exact HF.
+             ++ apply Htail; [right; eexists; split; [|reflexivity]; reflexivity | exact Hin'].
+        * cbn [bind fst snd] in Hv. injection Hv as <- <- <-. exists log1. split; [exact Hw1|]. split; [exact Hothers|].
+          intros i' r' [Heq | Hin'].
+          -- injection Heq as <- <-. eexists. split; [exact Hat|]. apply flags_ok_untriggered; [reflexivity | reflexivity | exact Hno1].
+          -- apply Htail; [left; reflexivity | exact Hin'].
+      + cbn [bind fst snd] in Hv. injection Hv as <- <- <-. exists log1. split; [exact Hw1|]. split; [exact Hothers|].
+        intros i' r' [Heq | Hin'].
+        * injection Heq as <- <-. eexists. split; [exact Hat|]. apply flags_ok_untriggered; [reflexivity | reflexivity | exact Hno1].
+        * apply Htail; [left; reflexivity | exact Hin'].
+  Qed.
+End Flags.
+
+Section Flags2.
+  Context {T : Type} {N : Num T}.
+  Variable function_eval : engine T -> fnode T -> list (string * T) -> T -> result T.
+  Notation outputs := (list (output_var T)).
+  Notation candidate := (@candidate T).
+  Variables (E : engine T) (b : block T).
+  Notation cj := (b_conjunction b).
+  Notation dj := (b_disjunction b).
+  Notation im := (b_implication b).
+  Notation vis := (visits function_eval E cj dj im).
+  Notation evals := (evals function_eval E b).
+
+  Lemma numbered_in_from {A : Type} (l : list A) : forall k i a, nth_error l i = Some a -> In (k + i, a) (combine (seq k (length l)) l).
+  Proof.
+    induction l as [|x l IH]; intros k [|i] a H; cbn in H; try discriminate.
+    - injection H as ->. rewrite Nat.add_0_r. left. reflexivity.
+    - cbn [length seq combine]. right. replace (k + S i) with (S k + i) by lia. apply IH, H.
+  Qed.
+  Lemma numbered_in {A : Type} (l : list A) i a : nth_error l i = Some a -> In (i, a) (numbered l).
+  Proof. intros H. exact (numbered_in_from l 0 i a H). Qed.
+
+  Lemma nodup_map_inj {A B : Type} (f : A -> B) (l : list A) a a' :
+    NoDup (map f l) -> In a l -> In a' l -> f a = f a' -> a = a'.
+  Proof.
+    induction l as [|x l IH]; intros ND Ha Ha' Hf; [contradiction|]. cbn [map] in ND. inversion ND as [|? ? NI ND']; subst.
+    destruct Ha as [<- | Ha], Ha' as [<- | Ha'].
+    - reflexivity.
+    - exfalso. apply NI. rewrite Hf. apply in_map, Ha'.
+    - exfalso. apply NI. rewrite <- Hf. apply in_map, Ha.
+    - exact (IH ND' Ha Ha' Hf).
+  Qed.
+
+  (* ---- the second loops, with the records *)
+  Lemma trig_cands_flags (g : T -> T) : forall (cs : list candidate) rules (outs : outputs) rules' outs',
+    NoDup (map (@cd_pos T) cs) -> (forall c, In c cs -> matches rules c) ->
+    trig_all im g (map (@cd_pos T) cs) rules outs = Ok (rules', outs') ->
+    (forall j, ~ In j (map (@cd_pos T) cs) -> nth_error rules' j = nth_error rules j) /\
+    (forall c, In c cs -> exists r, nth_error rules (cd_pos c) = Some r /\
+       nth_error rules' (cd_pos c) = Some (mk_rule r (g (cd_degree c)) (cd_enabled c && gtb (g (cd_degree c)) zero))).
+  Proof.
+    induction cs as [|c cs IH]; intros rules outs rules' outs' ND HM H.
+    - cbn [map trig_all] in H. injection H as <- <-. split; [reflexivity | intros c []].
+    - cbn [map] in ND. inversion ND as [|? ? NI ND']; subst.
+      destruct (HM c (or_introl eq_refl)) as (r & Hn & Hl & Hd & He & Hc).
+      cbn [map trig_all] in H. rewrite Hn in H.
+      change (regrade g r) with (mk_rule r (g (r_degree r)) (r_triggered r)) in H.
+      rewrite (trigger_loaded b r (g (r_degree r)) (r_triggered r) outs Hl) in H.
+      set (r1 := mk_rule r (g (r_degree r)) (r_enabled r && gtb (g (r_degree r)) zero)).
+      assert (Hstep : exists o1, trig_all im g (map (@cd_pos T) cs) (set_nth (cd_pos c) r1 rules) o1 = Ok (rules', outs')).
+      { unfold r1. rewrite <- mk_rule_flag_cases. destruct (r_enabled r).
+        - destruct (modify (g (r_degree r)) im (r_consequent r) outs) as [o1|]; cbn [bind fst snd] in H; [|discriminate]. eauto.
+        - cbn [bind fst snd] in H. eauto. }
+      destruct Hstep as (o1 & H1).
+      assert (HM1 : forall c', In c' cs -> matches (set_nth (cd_pos c) r1 rules) c').
+      { intros c' Hin. destruct (HM c' (or_intror Hin)) as (r2 & Hn2 & Hrest). exists r2. split; [|exact Hrest].
+        rewrite nth_error_set_nth_neq; [exact Hn2|]. intros Heq. apply NI. rewrite Heq. apply in_map, Hin. }
+      destruct (IH _ _ _ _ ND' HM1 H1) as (Hoth & Hin). split.
+      + intros j Hj. rewrite Hoth by (intros Hc'; apply Hj; right; exact Hc').
+        apply nth_error_set_nth_neq. intros Heq. apply Hj. left. exact Heq.
+      + intros c' [<- | Hin'].
+        * exists r. split; [exact Hn|]. rewrite (Hoth _ NI), (nth_error_set_nth_eq _ _ _ (nth_error_lt _ _ _ Hn)).
+          unfold r1. rewrite Hd, He. reflexivity.
+        * destruct (Hin c' Hin') as (r2 & Hn2 & Hn2'). exists r2. split; [|exact Hn2'].
+          rewrite nth_error_set_nth_neq in Hn2; [exact Hn2|]. intros Heq. apply NI. rewrite Heq. apply in_map, Hin'.
+  Qed.
+
+  (* ---- evaluate everything, then trigger the candidates cs (each with degree g d): the records *)
+  Lemma two_phase_flags (g : T -> T) (cs : list candidate) rules (outs : outputs) ev rules' outs' :
+    evals outs (numbered rules) = Ok ev -> incl cs (cands_of ev) -> NoDup (map (@cd_pos T) cs) ->
+    trig_all im g (map (@cd_pos T) cs) (store ev rules) outs = Ok (rules', outs') ->
+    forall ri r, nth_error rules ri = Some r ->
+    exists r', nth_error rules' ri = Some r' /\ flags_ok (map (fun c => cd_with_degree c (g (cd_degree c))) cs) ri r r'.
+  Proof.
+    intros Hev Hincl NDc H ri r Hr.
+    assert (NDx : NoDup (map fst (numbered rules))) by (rewrite numbered_fst; apply seq_NoDup).
+    assert (NDe : NoDup (map (@ev_pos T) ev)) by (rewrite (evals_pos _ _ _ _ _ _ Hev); exact NDx).
+    pose proof (agrees_numbered rules) as AG.
+    assert (HM : forall c, In c cs -> matches (store ev rules) c)
+      by (intros c Hin; exact (store_matches function_eval E b rules _ outs ev NDx AG Hev c (Hincl c Hin))).
+    destruct (trig_cands_flags g cs _ outs rules' outs' NDc HM H) as (Hoth & Hin).
+    set (h := fun c : candidate => cd_with_degree c (g (cd_degree c))).
+    assert (Hpos : map (@cd_pos T) (map h cs) = map (@cd_pos T) cs) by (rewrite map_map; reflexivity).
+    (* the evaluated entry of position ri *)
+    assert (Hv : exists od, In (ri, r, od) ev).
+    { assert (Hi : In ri (map (@ev_pos T) ev)).
+      { rewrite (evals_pos _ _ _ _ _ _ Hev), numbered_fst. apply in_seq. pose proof (nth_error_lt _ _ _ Hr). lia. }
+      apply in_map_iff in Hi. destruct Hi as ([[i0 r0] od] & Hp & Hv). cbn in Hp. subst i0. exists od.
+      destruct (evals_in _ _ _ _ _ _ _ _ _ Hev Hv) as (Hx & _). pose proof (AG _ _ Hx) as Hn. rewrite Hr in Hn. injection Hn as ->. exact Hv. }
+    destruct Hv as (od & Hv).
+    pose proof (store_lookup ev rules (ri, r, od) NDe Hv (nth_error_lt _ _ _ Hr)) as Hst. cbn [ev_pos fst] in Hst.
+    destruct (in_dec Nat.eq_dec ri (map (@cd_pos T) cs)) as [Hri | Hri].
+    - apply in_map_iff in Hri. destruct Hri as (c & Hp & Hc). subst ri.
+      destruct (Hin c Hc) as (r0 & Hn0 & Hn0'). exists (mk_rule r0 (g (cd_degree c)) (cd_enabled c && gtb (g (cd_degree c)) zero)).
+      split; [exact Hn0'|].
+      (* r0 is the stored record of r *)
+      assert (Hr0 : rule_deactivated r0 = rule_deactivated r).
+      { rewrite Hst in Hn0. injection Hn0 as <-. destruct od; reflexivity. }
+      assert (Huniq : forall c', In c' (map h cs) -> cd_pos c' = cd_pos c -> c' = h c).
+      { intros c' Hc' Hp'. apply in_map_iff in Hc'. destruct Hc' as (c0 & <- & Hc0). f_equal.
+        exact (nodup_map_inj (@cd_pos T) cs c0 c NDc Hc0 Hc Hp'). }
+      split; [exact Hr0|]. cbn [r_triggered r_degree mk_rule]. split.
+      + split.
+        * intros Ht. apply andb_true_iff in Ht. destruct Ht as [H1 H2]. exists (h c).
+          split; [apply in_map, Hc|]. split; [reflexivity|]. split; [exact H1 | exact H2].
+        * intros (c' & Hc' & Hp' & He' & Hg'). rewrite (Huniq c' Hc' Hp') in He', Hg'. cbn in He', Hg'. rewrite He', Hg'. reflexivity.
+      + intros c' Hc' Hp'. rewrite (Huniq c' Hc' Hp'). reflexivity.
+    - exists (stored_rule (ri, r, od)). split; [rewrite (Hoth ri Hri); exact Hst|].
+      apply flags_ok_untriggered.
+      + destruct od; reflexivity.
+      + destruct od; reflexivity.
+      + intros c' Hc' Hp'. apply Hri. rewrite <- Hpos, <- Hp'. apply in_map, Hc'.
+  Qed.
+
+  (* ---- every method *)
+  Lemma method_run_flags (PO : PosOrder N) (m : activation T) (outs : outputs) rules' outs' :
+    b_activation b = Some m ->
+    method_run function_eval E cj dj im m (b_rules b) outs = Ok (rules', outs') ->
+    exists sel, block_triggered function_eval E b outs = Ok sel /\
+      forall ri r, nth_error (b_rules b) ri = Some r -> exists r', nth_error rules' ri = Some r' /\ flags_ok sel ri r r'.
+  Proof.
+    intros Hm H. unfold block_triggered. rewrite Hm.
+    assert (NDx : NoDup (map fst (numbered (b_rules b)))) by (rewrite numbered_fst; apply seq_NoDup).
+    pose proof (agrees_numbered (b_rules b)) as AG.
+    assert (Hwalk : forall (A : Type) (f : A -> nat -> T -> A * bool) (decide : A -> T -> A * bool) xs a0,
+              (forall a i d, f a i d = decide a d) -> NoDup (map fst xs) -> agrees (b_rules b) xs ->
+              (forall ri r, nth_error (b_rules b) ri = Some r -> In (ri, r) xs) ->
+              (do v <- vis f xs a0 (b_rules b) outs; Ok (snd (fst v), snd v)) = Ok (rules', outs') ->
+              exists sel, (do r <- walk_log function_eval decide E b a0 outs xs; Ok (fst r)) = Ok sel /\
+                forall ri r, nth_error (b_rules b) ri = Some r -> exists r', nth_error rules' ri = Some r' /\ flags_ok sel ri r r').
+    { intros A f decide xs a0 Hf ND AGx Hall Hv.
+      destruct (vis f xs a0 (b_rules b) outs) as [[[a1 rs1] o1]|] eqn:Hvis; cbn [bind fst snd] in Hv; [|discriminate].
+      injection Hv as <- <-.
+      destruct (visits_flags function_eval E b A f decide Hf xs a0 (b_rules b) outs a1 rs1 o1 ND AGx Hvis) as (log & Hw & _ & Hin).
+      exists log. rewrite Hw. split; [reflexivity|]. intros ri r Hr. exact (Hin ri r (Hall ri r Hr)). }
+    assert (Hnum : forall ri r, nth_error (b_rules b) ri = Some r -> In (ri, r) (numbered (b_rules b)))
+      by (intros ri r; apply numbered_in).
+    assert (Hheap : forall key before n,
+              (forall p q, before p q = key_lt (hk key p) (hk key q)) ->
+              (forall a, ltb zero a = true -> eqb (key a) (key a) = true) ->
+              heap_run function_eval E cj dj im key n (b_rules b) outs = Ok (rules', outs') ->
+              exists sel, (do cs <- candidates function_eval E b outs 0 (b_rules b);
+                           Ok (firstn (Z.to_nat n) (sort_cands before (filter cd_positive cs)))) = Ok sel /\
+                forall ri r, nth_error (b_rules b) ri = Some r -> exists r', nth_error rules' ri = Some r' /\ flags_ok sel ri r r').
+    { intros key before n Hbk Hko Hrun. unfold heap_run in Hrun.
+      rewrite (visits_collect function_eval E b _ (f_heap key)) in Hrun by (intros a i d; unfold f_heap; destruct (gtb d zero); reflexivity).
+      rewrite candidates_evals. change (combine (seq 0 (length (b_rules b))) (b_rules b)) with (numbered (b_rules b)).
+      destruct (evals outs (numbered (b_rules b))) as [ev|] eqn:Hev; cbn [bind fst snd EngineProofs.rmap] in Hrun |- *; [|discriminate].
+      assert (NDe : NoDup (map (@ev_pos T) ev)) by (rewrite (evals_pos _ _ _ _ _ _ Hev); exact NDx).
+      pose proof (cands_of_nodup ev NDe) as NDc.
+      unfold facc in Hrun. rewrite facc_heap in Hrun. cbn [app] in Hrun. unfold entries in Hrun.
+      rewrite (pops_are_selection PO key before Hbk Hko n (cands_of ev) NDc) in Hrun.
+      eexists. split; [reflexivity|]. intros ri r Hr.
+      destruct (two_phase_flags ident _ (b_rules b) outs ev rules' outs' Hev) with (3 := Hrun) (4 := Hr) as (r' & Ha & Hb).
+      - intros c Hin. apply in_firstn_of in Hin.
+        apply (Permutation_in _ (Permutation_sym (sort_cands_perm before _))) in Hin. apply filter_In in Hin. exact (proj1 Hin).
+      - apply sorted_selection_nodup, NDc.
+      - exists r'. split; [exact Ha|]. rewrite map_with_same_degree in Hb. exact Hb. }
+    destruct m as [|n t|n t|n|n| |c t]; cbn [method_run] in H.
+    - exact (Hwalk unit f_general general_decide _ tt (fun _ _ _ => eq_refl) NDx AG Hnum H).
+    - exact (Hwalk Z (f_first n t) (first_decide n t) _ 0%Z (f_first_decide n t) NDx AG Hnum H).
+    - refine (Hwalk Z (f_first n t) (first_decide n t) _ 0%Z (f_first_decide n t) (NoDup_rev_map_fst _ NDx) (agrees_rev _ _ AG) _ H).
+      intros ri r Hr. apply in_rev. rewrite rev_involutive. exact (Hnum ri r Hr).
+    - exact (Hheap neg before_desc n (before_desc_key PO) (neg_ord PO) H).
+    - exact (Hheap (fun d => d) before_asc n (before_asc_key PO) (po_pos_ord PO) H).
+    - rewrite (visits_collect function_eval E b _ f_prop) in H by (intros a i d; unfold f_prop; destruct (gtb d zero); reflexivity).
+      rewrite candidates_evals. change (combine (seq 0 (length (b_rules b))) (b_rules b)) with (numbered (b_rules b)).
+      destruct (evals outs (numbered (b_rules b))) as [ev|] eqn:Hev; cbn [bind fst snd EngineProofs.rmap] in H |- *; [|discriminate].
+      assert (NDe : NoDup (map (@ev_pos T) ev)) by (rewrite (evals_pos _ _ _ _ _ _ Hev); exact NDx).
+      pose proof (cands_of_nodup ev NDe) as NDc.
+      unfold facc in H. rewrite facc_prop in H. cbn [app fst snd] in H. unfold entries in H.
+      rewrite filter_positive_key, key_fst, key_snd in H.
+      change (fold_left add (map (@cd_degree T) (filter cd_positive (cands_of ev))) zero) with (positive_sum (cands_of ev)) in H.
+      eexists. split; [reflexivity|]. intros ri r Hr.
+      destruct (two_phase_flags (fun d => div d (positive_sum (cands_of ev))) _ (b_rules b) outs ev rules' outs' Hev) with (3 := H) (4 := Hr)
+        as (r' & Ha & Hb).
+      + intros c0 Hin. apply filter_In in Hin. exact (proj1 Hin).
+      + rewrite <- key_fst, <- filter_positive_key. apply nodup_filter_fst. rewrite key_fst. exact NDc.
+      + exists r'. split; [exact Ha | exact Hb].
+    - exact (Hwalk unit (f_threshold c t) (threshold_decide c t) _ tt (f_threshold_decide c t) NDx AG Hnum H).
+  Qed.
+End Flags2.
